@@ -215,6 +215,47 @@ pub fn run_c32(ctx: &Ctx) -> i32 {
                 }
             }
         }
+        // shape-inconsistent private inputs (the fields are independent public vectors; such values are exactly the ones that
+        // end up Debug-printed in error contexts): positions missing / short / long, siblings short, and the hex flag
+        if i % 3 == 0 {
+            let saved_pos = hc.inputs.private.zk_merkle_positions.clone();
+            let saved_sib = hc.inputs.private.zk_merkle_siblings.clone();
+            let d = saved_pos.len();
+            let mut long_pos = saved_pos.clone();
+            long_pos.push(3);
+            let variants: Vec<(&'static str, Vec<u8>, Vec<_>)> = vec![
+                ("positions-empty", vec![], saved_sib.clone()),
+                ("positions-one", saved_pos[..1.min(d)].to_vec(), saved_sib.clone()),
+                ("positions-short", saved_pos[..d.saturating_sub(1)].to_vec(), saved_sib.clone()),
+                ("positions-long", long_pos, saved_sib.clone()),
+                ("siblings-one-level", saved_pos.clone(), saved_sib[..1.min(saved_sib.len())].to_vec()),
+                ("siblings-short", saved_pos.clone(), saved_sib[..saved_sib.len().saturating_sub(1)].to_vec()),
+            ];
+            for (vname, pos, sib) in variants {
+                hc.inputs.private.zk_merkle_positions = pos;
+                hc.inputs.private.zk_merkle_siblings = sib;
+                let dumps = [
+                    ("{:?}", format!("{:?}", hc.inputs.private)),
+                    ("{:#?}", format!("{:#?}", hc.inputs.private)),
+                    ("{:x?}", format!("{:x?}", hc.inputs.private)),
+                    ("{:?} (CircuitInputs)", format!("{:?}", hc.inputs)),
+                    ("{:#?} (CircuitInputs)", format!("{:#?}", hc.inputs)),
+                ];
+                for (fmt, dump) in dumps.iter() {
+                    rep.eval();
+                    rep.nontrivial(&("shape", vname, *fmt, i));
+                    rep.count("rendered:PrivateCircuitInputs(shape-inconsistent)");
+                    let hits = search(dump, &nd, &public_tokens);
+                    if !hits.is_empty() {
+                        rep.violation(&format!("debug-redaction / PrivateCircuitInputs ({vname}) leaks {}", hits[0].split(' ').take(2).collect::<Vec<_>>().join(" ")),
+                            &format!("{fmt} of private inputs whose path vectors are inconsistent ({vname}) contains private data: {}", hits.iter().take(4).cloned().collect::<Vec<_>>().join("; ")),
+                            json!({"type": "PrivateCircuitInputs", "shape": vname, "format": fmt, "hits": hits, "dump": dump.chars().take(1500).collect::<String>()}));
+                    }
+                }
+            }
+            hc.inputs.private.zk_merkle_positions = saved_pos;
+            hc.inputs.private.zk_merkle_siblings = saved_sib;
+        }
     });
     rep.finish(ctx, ctx.tier.pick(1000, 20000))
 }
